@@ -91,7 +91,8 @@ def gen_description(rnd):
                 if "." in e0:
                     e0 = e0.rsplit(".", 1)[1]
                     ext = rnd.choice([e0.upper(), e0.lower(), e0.capitalize()])
-            stem = rnd.choice(["part", "slide", "image", "item", "x", "Part", "[x]", "p-q_r"]) + rnd.choice(["", "1", "2", "7", "21", "007"])
+            # (percent-escapes are part of a part NAME - 'image%201.png' is not 'image 1.png' - and stay as they are in Targets)
+            stem = rnd.choice(["part", "slide", "image", "item", "x", "Part", "[x]", "p-q_r", "image%20", "%E5%9B%BE", "raw%2Bdata"]) + rnd.choice(["", "1", "2", "7", "21", "007"])
             fn = stem + ("." + ext if ext else "")
             name = "/" + (d + "/" if d else "") + fn
             if name.lower() not in used and not fn.endswith(".rels") and fn != "[Content_Types].xml":
@@ -154,6 +155,26 @@ def gen_description(rnd):
             add_rel(src, None, ext=rnd.choice(["http://example.com/a?b=1&c=2#frag", "file:///C:/x y/z%20.docx", "mailto:a@b.c", "../outside.xml", "https://h/p?q=<tag>&r='\""]))
         else:
             add_rel(src, rnd.randrange(nparts))  # may be a self-loop, a back edge (cycle) or a duplicate target
+    if rnd.random() < 0.3:
+        # twins: two sources in different directories whose relationship items spell a Target alike ('media/twin1.png') while
+        # naming different parts (/d1/media/twin1.png, /d2/media/twin1.png) - as a document and its glossary document do
+        d1, d2 = rnd.sample(["doc", "doc/glossary", "ppt", "ppt/slides", "a/b/c/d", "UP/Case"], 2)
+        sub, leaf = rnd.choice(["media", "embeddings", "."]), rnd.choice(["twin1.png", "twin.bin", "Twin7.xml"])
+        ct = rnd.choice(pool["generic"])
+        idx = []
+        for d in (d1, d2):
+            src_name = "/%s/twinsrc.bin" % d
+            tgt_name = posixpath.normpath("/%s/%s/%s" % (d, sub, leaf))
+            if src_name.lower() in used or tgt_name.lower() in used:
+                break
+            used.update([src_name.lower(), tgt_name.lower()])
+            parts.append({"name": src_name, "ctype": pool["generic"][0], "payload": ("text", rnd.randrange(1 << 30)), "rels": [], "ext": "bin", "declare": "override"})
+            parts.append({"name": tgt_name, "ctype": ct, "payload": ("xml", len(parts)) if ct in xml_parsed_types() else ("random", rnd.randrange(1 << 30)), "rels": [], "ext": leaf.rsplit(".", 1)[1].lower(), "declare": "override"})
+            idx.append((len(parts) - 2, len(parts) - 1))
+        for si, ti in idx:
+            add_rel(None, si)
+            add_rel(si, ti)
+            parts[si]["rels"][-1]["spelling"] = "rel"
     extras = []
     for _ in range(rnd.choice([0, 0, 1, 2])):
         extras.append(rnd.choice(["docProps/thumbnail.jpeg", "ppt/unused/part9.xml", "junk.bin", "ppt/_rels/ghost.xml.rels"]))
